@@ -16,6 +16,7 @@ pub mod c10;
 pub mod c11;
 pub mod c12;
 pub mod c13;
+pub mod c14;
 pub mod c15;
 pub mod c16;
 pub mod c17;
@@ -49,6 +50,7 @@ pub fn all() -> Vec<Property> {
         Property { id: "C11", rule: c11::RULE, assumptions: c11::ASSUMPTIONS, suites: c11::suites() },
         Property { id: "C12", rule: c12::RULE, assumptions: c12::ASSUMPTIONS, suites: c12::suites() },
         Property { id: "C13", rule: c13::RULE, assumptions: c13::ASSUMPTIONS, suites: c13::suites() },
+        Property { id: "C14", rule: c14::RULE, assumptions: c14::ASSUMPTIONS, suites: c14::suites() },
         Property { id: "C15", rule: c15::RULE, assumptions: c15::ASSUMPTIONS, suites: c15::suites() },
         Property { id: "C16", rule: c16::RULE, assumptions: c16::ASSUMPTIONS, suites: c16::suites() },
         Property { id: "C17", rule: c17::RULE, assumptions: c17::ASSUMPTIONS, suites: c17::suites() },
